@@ -210,6 +210,59 @@ def simulate_blocks(case, rnd=None):
     return tr
 
 
+def simulate_msggen(case, rnd=None):
+    """Transmitter class: the library's UARTMsgGenerator (MsgSequencer + flow control + its own divider + UARTSerializer) drives
+    the line; ClockGenerationAndRecovery + UARTDeserializer receive it.  The accepted bytes are tapped at the ready/valid port
+    of the serializer inside the generator (which message bytes the sequencer chooses to send is not C17's business).  The
+    generator never stops, so the run records judge_n + 2 acceptances and only the first judge_n bytes are judged."""
+    import py4hw
+    from py4hw.logic.protocol.uart.serdes import UARTDeserializer
+    from py4hw.logic.protocol.uart.clock import ClockGenerationAndRecovery
+    from py4hw.logic.protocol.uart.sequencer import UARTMsgGenerator
+    fs, fu = case['fs'], case['fu']
+    period = realised_period(fs, fu)
+    rd = case['ready']
+    ready = Ready(rd['mode'], rd['maxgap'], rnd, case.get('ready_rle'))
+    n = case['judge_n']
+    hw = py4hw.HWSystem()
+    W = _link_wires(hw, '')
+    msg = ''.join(chr(x) for x in case['data'])
+    with muted():
+        if case.get('order', 0) % 2 == 0:
+            gen = UARTMsgGenerator(hw, 'gen', W['tx'], fs, fu, msg)
+        ClockGenerationAndRecovery(hw, 'uart_clock', W['tx'], W['desync'], W['pulse'], W['rx_sample'], fs, fu)
+        UARTDeserializer(hw, 'des', W['tx'], W['rx_sample'], W['d_ready'], W['d_valid'], W['d_v'], W['desync'])
+        if case.get('order', 0) % 2 == 1:
+            gen = UARTMsgGenerator(hw, 'gen', W['tx'], fs, fu, msg)
+        sim = hw.getSimulator()
+    ser = gen.children['ser']
+    tr = dict(sv=[], sr=[], sd=[], tx=[], dv=[], dr=[], dd=[], rs=[])
+    cols = [(tr['sv'], ser.valid), (tr['sr'], ser.ready), (tr['sd'], ser.v), (tr['tx'], W['tx']), (tr['dv'], W['d_valid']),
+            (tr['dr'], W['d_ready']), (tr['dd'], W['d_v']), (tr['rs'], W['rx_sample'])]
+    bound_bits = LATENCY_BOUND_BITS + rd.get('stall_bits', 0)
+    cap = (n + 6) * 14 * period + 60 * period
+    seen = 0
+    stop_at = None
+    t = 0
+    with muted():
+        while t < cap:
+            W['d_ready'].put(ready.next(t))
+            for col, w in cols:
+                col.append(w.get())
+            if tr['sv'][-1] and tr['sr'][-1]:
+                seen += 1
+                if seen == n + 2:
+                    stop_at = t + 4 * period
+            sim.clk(1)
+            t += 1
+            if stop_at is not None and t > stop_at:
+                break
+    tr['period'], tr['bound_bits'], tr['cycles'] = period, bound_bits, len(tr['tx'])
+    tr['stall'] = None if seen >= n + 2 else dict(byte_index=seen, offered_at=0, gave_up_at=t)
+    tr['judge_n'] = n
+    return tr
+
+
 def garbage(t):
     """what the producer leaves on s_v while s_valid is low (a function of the cycle, so replays need no storage)."""
     return (t * 0x9D + 0x3B) & 0xFF
@@ -325,6 +378,8 @@ def simulate(case, rnd=None):
     acceptance; 0 = valid held), ready = {mode, maxgap} (+ ready_rle for an explicit schedule)."""
     if case.get('env'):
         return simulate_blocks(case, rnd)
+    if case.get('tx') == 'msggen':
+        return simulate_msggen(case, rnd)
     fs, fu = case['fs'], case['fu']
     period = realised_period(fs, fu)
     data, gaps = case['data'], case['gaps']
@@ -594,6 +649,9 @@ def judge(tr):
     n = len(tx)
     acc = [(t, sd[t]) for t in range(n) if sv[t] and sr[t]]
     dlv = [(t, dd[t]) for t in range(n) if dv[t] and dr[t]]
+    jn = tr.get('judge_n')          # open-ended transmitter: only the first jn bytes are judged
+    if jn is not None:
+        acc, dlv = acc[:jn], dlv[:jn]
     accv = [v for _, v in acc]
     dlvv = [v for _, v in dlv]
     findings = []
@@ -640,6 +698,8 @@ def judge(tr):
 
     # ---- line: independent 8N1 receiver
     frames, cut = soft_rx(tx, period)
+    if jn is not None:
+        frames, cut = frames[:jn], False
     obs['frames'] = len(frames)
     linev = [b for _, b, _ in frames]
     bad = [(k, f) for k, f in enumerate(frames) if f[2] is not None]
@@ -768,6 +828,9 @@ def plan(tier, seed):
                 specs.append(dict(fs=fs, fu=fu, kind=['random', 'repeats'][m], n=16, gap=gapmodes[(k + 2 * m) % 5],
                                   ready=['always', 'rand', 'worst', 'sparse', 'rand_long'][(k + m) % 5], order=(k + m) % 3,
                                   env=placements[(2 * k + m) % 4]))
+        for k, r in enumerate(list(range(4, 41)) + [4.5, 10.85, 17.5]):      # the library's own message generator as the transmitter
+            specs.append(dict(fs=r, fu=1, kind=['toggle', 'random', 'special'][k % 3], n=1 + k % 5, gap='none', tx='msggen', judge_n=6,
+                              ready=['always', 'rand', 'worst'][k % 3], order=k % 2))
         for k, r2 in enumerate(range(8, 129)):           # every ratio 4.0, 4.5 .. 64.0 through varying float pairs
             fu = FU_VARIANTS[k % len(FU_VARIANTS)]
             specs.append(dict(fs=r2 * fu / 2, fu=fu, kind='toggle', n=6, gap=['none', 'none', 'one'][k % 3], ready=['always', 'rand'][k % 2], order=k % 3))
@@ -786,6 +849,9 @@ def plan(tier, seed):
             for j in range(24):
                 specs.append(dict(fs=fs, fu=fu, kind=['repeats', 'random', 'special'][j % 3], n=40, gap=gapmodes[j % 5],
                                   ready=['always', 'rand', 'worst', 'sparse', 'rand_long'][(j // 5) % 5], order=j % 3, env=placements[j % 4]))
+            for j in range(6):
+                specs.append(dict(fs=fs, fu=fu, kind=['toggle', 'random', 'special'][j % 3], n=1 + j % 5, gap='none', tx='msggen', judge_n=12,
+                                  ready=['always', 'rand', 'worst', 'sparse', 'rand_long'][j % 5], order=j % 2))
         for k, r2 in enumerate(range(8, 129)):
             for v, fu in enumerate(FU_VARIANTS):
                 specs.append(dict(fs=r2 * fu / 2, fu=fu, kind='toggle', n=12, gap=gapmodes[(k + v) % 5], ready=readymodes[(k + v) % 3], order=v % 3))
@@ -872,6 +938,11 @@ def expand(spec, seed):
                 ready=ready, gap_mode=spec['gap'], kind=spec['kind'])
     if spec.get('env'):
         case['env'] = dict(spec['env'])
+    if spec.get('tx') == 'msggen':
+        case['tx'] = 'msggen'
+        case['judge_n'] = spec['judge_n']
+        case['gap_mode'] = 'generator'
+        case['gaps'] = []
     return case, rng(seed, 'C17', 'ready', spec['id'])
 
 
@@ -971,6 +1042,8 @@ def account(run, case, tr, agg, group=None, chan=None):
         base = 12 * period
         agg['stalled_deliveries'] += sum(1 for x in obs['latencies'] if x > base + 2 * period)
     agg['ready_low_cycles'] += tr['dr'].count(0)
+    if case.get('tx') == 'msggen':
+        agg['msggen'] += obs['accepted']
     if case.get('env'):
         ek = 'producer_%s/consumer_%s' % (case['env']['producer'], case['env']['consumer'])
         agg['env'][ek] = agg['env'].get(ek, 0) + obs['env_transfers_cross_checked']
@@ -1000,6 +1073,9 @@ def run_check(run, tier, seed, shard):
     run.assume('environment placement classes: both ready/valid ports are also driven by clocked producer / consumer blocks inside the '
                'design, instantiated before and after the UART block they talk to (the simulator states that clocked blocks need no '
                'order); the transfers each block counts must equal the handshakes visible on the port at the cycle boundaries')
+    run.assume('transmitter class: UARTMsgGenerator (messages of 1-5 bytes) as the tx side; accepted = handshakes at the ready/valid '
+               'port of the serializer inside the generator (which message bytes the sequencer picks is not judged); the generator '
+               'never stops, so the first 6 (quick) / 12 (thorough) bytes of each run are judged by all three oracles')
     run.assume('composition classes: several links alive at once (full duplex A<->B with one clock block per end point, N parallel '
                'loop-back links with different ratios in one HWSystem, two HWSystems stepped alternately); every link is judged by '
                'its own reference exactly as a single link is -- links share no wire, so they must not influence each other')
@@ -1010,7 +1086,7 @@ def run_check(run, tier, seed, shard):
     specs = shard_slice(plan(tier, seed), shard)
     deadline = time.time() + (420 if tier == 'quick' else 2400)
     agg = dict(per_ratio={}, gap_modes={}, ready_modes={}, back_to_back=0, ready_low_cycles=0, stalls=[], latency_hist={}, stalled_deliveries=0,
-               sample_hist={}, acc_ratio={}, compositions={}, overlap_cycles=0, env={})
+               sample_hist={}, acc_ratio={}, compositions={}, overlap_cycles=0, env={}, msggen=0)
     skipped = 0
     for spec in specs:
         if time.time() > deadline:
@@ -1055,6 +1131,7 @@ def run_check(run, tier, seed, shard):
     run.extra['valid_held_acceptances'] = agg['back_to_back']
     run.extra['ready_low_cycles'] = agg['ready_low_cycles']
     run.extra['compositions_by_topology'] = agg['compositions']
+    run.extra['bytes_judged_with_UARTMsgGenerator_as_transmitter'] = agg['msggen']
     run.extra['transfers_cross_checked_by_env_block_placement'] = agg['env']
     run.extra['cycles_with_two_links_mid_frame'] = agg['overlap_cycles']
     run.extra['deliveries_stalled_over_2_bit_periods'] = agg['stalled_deliveries']
@@ -1071,6 +1148,8 @@ def post_merge(run, tier, seed):
         run.inconclusive.append('no back-to-back acceptance was observed')
     if not run.extra.get('deliveries_stalled_over_2_bit_periods'):
         run.inconclusive.append('no delivery was ever stalled for more than 2 bit periods')
+    if not run.extra.get('bytes_judged_with_UARTMsgGenerator_as_transmitter'):
+        run.inconclusive.append('no byte was judged with UARTMsgGenerator as the transmitter')
     envs = run.extra.get('transfers_cross_checked_by_env_block_placement', {})
     if len([k for k, v in envs.items() if v]) < 4:
         run.inconclusive.append('clocked environment blocks were not observed in all four placements: %s' % envs)
